@@ -59,6 +59,7 @@ impl LeafSpans for TraitType {
         if let Some(ty) = &self.ty_opt {
             collected_spans.append(&mut ty.leaf_spans());
         }
+        collected_spans.push(ByteSpan::from(self.semicolon_token.span()));
         collected_spans
     }
 }
